@@ -700,7 +700,7 @@ def c16(tier):
                          ["ANTLR token positions with respect to the cleaned text are outside (lexer/parser not encoded)",
                           "declaration lines follow the layout <indent><keyword> <name><tail>"], "",
                          bounds={"line lookups": "<= %d declarations, names of length 1..%d over {a,e,t,_,.,-}, %d indents and %d keyword-name separators (blanks, tabs, form feeds), 2-3 tails" % (d + 1, n, lay["NI"], lay["NS"]),
-                                 "pre-pass": "all byte strings of length <= %d" % W(tier, 6, 8)})
+                                 "pre-pass": "all strings over 0x00..0x7f of length <= %d, all byte strings of length <= %d" % (W(tier, 5, 7), W(tier, 3, 4))})
     out.finish()
 
 
@@ -708,7 +708,7 @@ def c14(tier):
     n = W(tier, 1, 2)
     jobs = [T("transformer", "VerifC14_CmpPair", {"N": W(tier, 2, 3)}), T("transformer", "VerifC14_CmpTriple", {"N": W(tier, 1, 2)}),
             T("transformer", "VerifC14_Canonical", {"N": n}, sched="all", prune=True),
-            T("transformer", "VerifC14_Inert", {"N": n}),
+            T("transformer", "VerifC14_Inert", {"N": n}), T("transformer", "VerifC14_Inert", {"N": 1, "NL": 1}),
             T("transformer", "VerifC14_TypeOrder", {"N": n}),
             T("transformer", "VerifC14_ManyRelations", {}, sched="rot", prune=True),
             T("transformer", "VerifC14_ParamOrder", {"N": W(tier, 2, 3)}, sched="all", prune=True),
@@ -722,7 +722,7 @@ def c14(tier):
                                              "VerifC14_TypeOrder": ["printed"], "VerifC14_ManyRelations": ["printed"], "VerifC14_ParamOrder": ["printed"], "VerifC14_CondOrder": ["printed"]},
                          ["names/modules/files over small alphabets (the code only compares and copies bytes)",
                           "JSON key order reduces to map order (protojson not encoded)",
-                          "file/module names containing a line break or ' #' are outside (property)"], "",
+                          "module/file names over small alphabets, one job with line feeds and carriage returns in them"], "",
                          repeat_native=8, bounds={"CmpPair": "two keys, every string of length <= %d" % W(tier, 2, 3), "CmpTriple": "three keys, every string of length <= %d" % W(tier, 1, 2),
                                  "Canonical/Inert": "modular model: 2 types, 2 relations, 2 conditions x 4 parameters, all names symbolic of length <= %d, every iteration order of every map in jsontodsl.go (state-hash pruned), both type orders, both option values" % n})
     out.finish()
